@@ -134,7 +134,7 @@ def responder_node(rng, name="R", maxcas=3):
     cas, ops, states = [], [], []
     used = set()
     for k in range(1, n + 1):
-        st = rng.choice(["none", "veto", "normal", "normal", "bypass", "cannot", "moved"])
+        st = rng.choice(["none", "veto", "normal", "normal", "bypass", "cannot", "moved", "bypass_lost"])
         while True:
             pref = rng.choice([0x10, 0x11, 0x80, 0x81, 0xC8, 0xF7, rng.randint(0, 253)])
             if not ({pref, pref + 1} & used) and pref + 1 <= 253:
@@ -145,7 +145,7 @@ def responder_node(rng, name="R", maxcas=3):
             used |= {pref, pref + 1}
         name_kw = {"identity_number": 100 + k, "function": rng.choice([0, 5, 255])}
         ca = {"pref": pref, "aac": 1 if st == "moved" else rng.choice([0, 0, 1]) if st != "cannot" else 0,
-              "bypass": st == "bypass", "name": name_kw}
+              "bypass": st in ("bypass", "bypass_lost"), "name": name_kw}
         cas.append(ca)
         held = None
         if st == "none":
@@ -162,6 +162,11 @@ def responder_node(rng, name="R", maxcas=3):
                 held = None if st == "cannot" else pref + 1
         elif st == "bypass":
             held = pref
+        elif st == "bypass_lost":
+            # a CA that owns its address without ever having been started loses it to a lower NAME like any other
+            cid = (6 << 26) | (0xEE << 16) | (0xFF << 8) | pref
+            ops.append({"t": 1_000_000, "node": name, "op": "inject", "id": cid, "data": [0] * 8})
+            held = None
         states.append({"st": st, "held": held, "pref": pref})
     return {"name": name, "lat": rng.choice([1, 700, 3000]), "cas": cas}, ops, states
 
@@ -178,9 +183,16 @@ def request_scenario(seed):
         resp["lst"] = [{"tag": "i48", "kind": "int", "adr": 0x30}]
     # requester: a CA with an address (bypass) or one that never claimed (only the address-claim PGN may be requested)
     with_addr = rng.random() < 0.75
-    q = {"name": "Q", "lat": 900, "cas": [{"pref": 0x55, "aac": 0, "bypass": with_addr, "name": {"identity_number": 7}}]}
+    qadr = rng.choice([0x55, 0x55, 0x00, 0xFD])        # incl. the boundary addresses 0 (valid, falsy) and 253
+    while qadr in {p for st_ in states for p in (st_["pref"], st_["pref"] + 1)}:
+        qadr = rng.choice([0x55, 0x56, 0x57])
+    q = {"name": "Q", "lat": 900, "cas": [{"pref": qadr, "aac": 0, "bypass": with_addr, "name": {"identity_number": 7}}]}
     helds = [s["held"] for s in states if s["held"] is not None]
     prefs = [s["pref"] for s in states]
+    if with_addr and prefs and rng.random() < 0.5:
+        # the same addresses are polled early (before / while they are being claimed) and again later
+        for j, p in enumerate(prefs):
+            ops.append({"t": 100_000 + 3000 * j, "node": "Q", "op": "send_request", "ca": 1, "dp": 0, "pgn": rng.choice([0xFECA, 0xEE00]), "dest": p})
     t = 2_000_000
     for i in range(rng.randint(1, 6)):
         dest = rng.choice(helds + prefs + [255, 255, 254, 0x30, 0x77]) if (helds or prefs) else rng.choice([255, 254, 0x77])
